@@ -8,6 +8,7 @@ import (
 	"fmt"
 	"io"
 	"os"
+	"regexp"
 	"sort"
 	"strings"
 	"sync"
@@ -46,6 +47,7 @@ type SchedResult struct {
 	Ties          int               `json:"maporder_ties"`
 	FreeformLines int               `json:"freeform_lines"`
 	SweepLines    int               `json:"sweep_lines"`
+	SweepWarmed   bool              `json:"sweep_symbols_interned_beforehand"`
 	SharedChanged []string          `json:"shared_values_changed"`
 	SwitchPerK    uint32            `json:"switch_per_k"`
 	EvalPerK      uint32            `json:"eval_per_k"`
@@ -153,6 +155,8 @@ var startupProbes = []string{
 }
 
 // schedChild runs one scheduled simulation in this (fresh) process.
+var plainName = regexp.MustCompile(`^[A-Za-z_][A-Za-z0-9_]*[?!]?$`)
+
 func schedChild(args []string) int {
 	fs := flag.NewFlagSet("schedrun", flag.ExitOnError)
 	mode := fs.String("mode", "warm", "")
@@ -323,10 +327,10 @@ func schedChild(args []string) int {
 			tabs.initTables(it)
 			var lines []string
 			recvs := append([]string(nil), sharedNames...)
-			// two of the built-in prototypes (shared by every evaluation of the process) as receivers too
-			protos := []string{"Int", "Str", "Arr", "Obj", "Map", "Range", "Func", "Kernel", "Iterable", "Either", "Err", "BaseObj", "Float", "Nil"}
-			for n := 0; n < 2; n++ {
-				recvs = append(recvs, protos[t.Intn(len(protos))])
+			// the built-in prototypes (shared by every evaluation of the process) are receivers too
+			protos := []string{"Int", "Str", "Arr", "Obj", "Map", "Range", "Func", "Kernel", "Iterable", "Either", "Err", "BaseObj", "Float", "Nil", "Comparable", "Iter"}
+			for _, j := range t.Perm(len(protos))[:4] {
+				recvs = append(recvs, protos[j])
 			}
 			for _, name := range recvs {
 				v, ok := sharedEnv.Get(object.GetSymHash(name))
@@ -334,23 +338,67 @@ func schedChild(args []string) int {
 					continue
 				}
 				for _, pn := range tabs.propsFor(v) {
-					lines = append(lines, fmt.Sprintf("%s.%s", name, pn), fmt.Sprintf("%s.%s(private?: true)", name, pn))
+					if !plainName.MatchString(pn) {
+						continue
+					}
+					if f := os.Getenv("VERIF_SWEEP_FILTER"); f != "" && !regexp.MustCompile(f).MatchString(pn) {
+						continue // development aid: sweep only the properties whose name matches f
+					}
+					// one element, thoughtful list chain: a failing read leaves the element and the
+					// sweep goes on; the property is called exactly as by `recv.name(...)`
+					lines = append(lines, fmt.Sprintf("[%s]~@%s", name, pn), fmt.Sprintf("[%s]~@%s(private?: true)", name, pn))
 				}
 			}
 			scopeBase = sharedEnv
-			// (bounded: under the race detector and the scheduler a read costs ~1 ms; the
-			// window of the list is the same for all tasks, only their rotation differs)
-			if len(lines) > 300 {
-				w := t.Intn(len(lines) - 300)
-				lines = lines[w : w+300]
+			// (the race detector orders accesses by happens-before, not by the interleaving that
+			// happened to occur, so a sweep does not need fine-grained switching: few switches
+			// keep the whole list affordable and the recorded schedule short. Each task's sweep
+			// is ONE program - an array literal of all reads - so that it is parsed once.)
+			lockstep := t.Chance(5, 6)
+			if lockstep {
+				// same rotation, a switch at most entries of Eval: the tasks advance through the
+				// list side by side, so that the two calls of one property are close together
+				// (little of what the detector treats as synchronisation - sync.Pool traffic of
+				// fmt, for one - fits between them)
+				cfg.EvalPerK, cfg.SwitchPerK = 160, 32
+			} else {
+				cfg.EvalPerK = 0
+				if cfg.SwitchPerK > 8 {
+					cfg.SwitchPerK = 8
+				}
+			}
+			res.SwitchPerK, res.EvalPerK = cfg.SwitchPerK, cfg.EvalPerK
+			if len(lines) > 1200 {
+				w := t.Intn(len(lines) - 1200)
+				lines = lines[w : w+1200]
+			}
+			// In two runs of three the sweep is first evaluated once, alone: afterwards every
+			// symbol it needs is interned, so the tasks never take the symbol table's write
+			// lock - whose release/acquire pairs would otherwise order most of what two tasks
+			// do in a token-passing execution and so hide conflicting accesses from the detector.
+			// (The remaining runs keep the cold start: first-use initialisation races.)
+			if t.Chance(2, 3) {
+				evalOne("[\n" + strings.Join(lines, ",\n") + "\n]")
+				res.SweepWarmed = true
 			}
 			for i := range progs {
+				if i >= 2 {
+					// two sweeping tasks are enough to meet each other; the others idle
+					progs[i] = []string{"nil"}
+					results[i] = make([]string, 1)
+					res.Programs[i] = "nil"
+					continue
+				}
 				rot := t.Intn(len(lines))
-				progs[i] = append(append([]string(nil), lines[rot:]...), lines[:rot]...)
-				results[i] = make([]string, len(progs[i]))
-				res.Programs[i] = fmt.Sprintf("<sweep of %d property reads over the shared values, rotation %d>", len(lines), rot)
+				if lockstep {
+					rot = 0
+				}
+				rotated := append(append([]string(nil), lines[rot:]...), lines[:rot]...)
+				progs[i] = []string{"[\n" + strings.Join(rotated, ",\n") + "\n]"}
+				results[i] = make([]string, 1)
+				res.Programs[i] = fmt.Sprintf("<sweep of %d property reads over the shared values and the built-in prototypes, rotation %d>", len(lines), rot)
 			}
-			res.SweepLines += len(lines) * k
+			res.SweepLines += len(lines) * 2
 		}
 		histGen := make([]*c06Check, k)
 		histTape := make([]*tape.Tape, k)
@@ -438,6 +486,9 @@ func schedChild(args []string) int {
 			for j, src := range progs[i] {
 				if strings.HasPrefix(results[i][j], "PANIC") {
 					res.Panics = append(res.Panics, fmt.Sprintf("task %d program %d: %s", i, j, results[i][j]))
+				}
+				if sweep && i > 0 {
+					continue // the sweeps differ only in rotation: one is compared with its solo run
 				}
 				solo := evalOne(src)
 				if solo != results[i][j] {
